@@ -153,6 +153,8 @@ func (p *processor) processSequence(event *Event) bool {
 			return false
 		}
 
+		verifGate(vgProcBeforeOut, p)
+		verifTrace(vtProcOut, p, verifID(event.stream), int64(event.SeqID), int64(event.kind), 0)
 		event.stage = eventStageOutput
 		p.router.Out(event)
 	}
@@ -183,6 +185,7 @@ func (p *processor) processEvent(event *Event) (isPassed bool, e *Event) {
 		if event.IsTimeoutKind() {
 			// pass timeout directly to plugin which requested next sequential event.
 			event.action = lastAction
+			verifTrace(vtProcTimeoutTo, p, verifID(event.stream), int64(event.action), int64(p.busyActionsTotal), verifBool(event.action >= 0 && event.action < len(p.busyActions) && p.busyActions[event.action]))
 		}
 	}
 }
@@ -203,7 +206,9 @@ func (p *processor) doActions(event *Event) (isPassed bool, lastAction int) {
 
 		p.actionWatcher.setEventBefore(index, event)
 
+		verifTrace(vtProcDo, p, verifID(event.stream), int64(event.SeqID), int64(index), int64(event.kind)+8*verifBool(p.busyActions[index]))
 		result := action.Do(event)
+		verifTrace(vtProcResult, p, verifID(event.stream), int64(event.SeqID), int64(index), int64(result))
 		switch result {
 		case ActionPass:
 			p.countEvent(event, index, eventStatusPassed)
@@ -420,6 +425,7 @@ func (p *processor) Propagate(event *Event) {
 	event.action++
 	nextActionIdx := event.action
 	p.tryResetBusy(nextActionIdx - 1)
+	verifTrace(vtProcPropagate, p, verifID(event.stream), int64(event.SeqID), int64(nextActionIdx), 0)
 	p.processSequence(event)
 }
 
@@ -432,6 +438,7 @@ func (p *processor) IncMaxEventSizeExceeded(lvs ...string) {
 func (p *processor) Spawn(parent *Event, nodes []*insaneJSON.Node) {
 	parent.SetChildParentKind()
 	nextActionIdx := parent.action + 1
+	verifTrace(vtProcSpawn, p, verifID(parent.stream), int64(parent.SeqID), int64(len(nodes)), 0)
 
 	for _, node := range nodes {
 		// we can't reuse parent event (using insaneJSON.Root{Node: child}
@@ -447,6 +454,7 @@ func (p *processor) Spawn(parent *Event, nodes []*insaneJSON.Node) {
 
 		ok, _ := p.doActions(child)
 		if ok {
+			verifTrace(vtProcOut, p, verifID(parent.stream), int64(parent.SeqID), int64(child.kind), 0)
 			child.stage = eventStageOutput
 			p.router.Out(child)
 		}
